@@ -7,6 +7,8 @@ import (
 	"runtime"
 	"strconv"
 	"sync"
+	"sync/atomic"
+	"time"
 
 	"github.com/koron-go/z80"
 	"github.com/koron-go/z80/verif/mon"
@@ -54,8 +56,45 @@ func Workers() int {
 	return n
 }
 
+// progress bookkeeping for the stall watchdog (see StartStallWatchdog)
+var (
+	shardsDone   atomic.Int64
+	parallelLive atomic.Int64
+)
+
+// StartStallWatchdog ends the process as INCONCLUSIVE (exit 3) when no Parallel
+// shard has finished for the given time while a Parallel section is running: a
+// Step that loops without returning inside a sweep would otherwise hold the
+// check until the outer wall-clock watchdog fires.  Shards normally take
+// seconds; the verdict is never a violation.
+func StartStallWatchdog(prop string, limit time.Duration) {
+	go func() {
+		last := int64(-1)
+		var since time.Time
+		for {
+			time.Sleep(5 * time.Second)
+			if parallelLive.Load() == 0 {
+				last = -1
+				continue
+			}
+			d := shardsDone.Load()
+			if d != last {
+				last = d
+				since = time.Now()
+				continue
+			}
+			if time.Since(since) > limit {
+				fmt.Printf("INCONCLUSIVE property=%s no work unit finished for %s (a Step or Run may not be returning; see C12)\n", prop, limit)
+				os.Exit(3)
+			}
+		}
+	}()
+}
+
 // Parallel runs fn(worker, shard) for shard in [0,n) on Workers() goroutines.
 func Parallel(n int, fn func(shard int)) {
+	parallelLive.Add(1)
+	defer parallelLive.Add(-1)
 	var wg sync.WaitGroup
 	ch := make(chan int, n)
 	for i := 0; i < n; i++ {
@@ -68,6 +107,7 @@ func Parallel(n int, fn func(shard int)) {
 			defer wg.Done()
 			for s := range ch {
 				fn(s)
+				shardsDone.Add(1)
 			}
 		}()
 	}
